@@ -337,7 +337,11 @@ impl World {
                         self.stats.hit(classify_refusal(ml, &info));
                         let after = Full::of(&self.searchers[idx].board);
                         if let Some(d) = after.diff(&before) {
+                            let undo_path = World::names_pseudo_legal(&info, ml);
                             for p in [C02, C04] {
+                                if p == C04 && !undo_path {
+                                    continue;
+                                }
                                 if self.on(p) {
                                     return Err(self.fail(
                                         p,
